@@ -50,12 +50,30 @@ class DispersionMeasure(u.SpecificTypeQuantity):
     def chirp_function(self, N, dt, center_freq, ref_freq, use_dask=False):
         """Chirp function for coherent dedispersion."""
         coeff = self.dispersion_constant * self
+        # Double precision throughout (1 / f for a frequency held in single
+        # precision is far too coarse for the phase).
+        dt, center_freq, ref_freq = (
+            q.astype(np.float64) if isinstance(q, u.Quantity) else q
+            for q in (dt, center_freq, ref_freq)
+        )
         tf_args = (coeff, N, dt, center_freq, ref_freq)
 
         if use_dask:
+            # Key the task by the exact values: dask would hash the printed form
+            # of a Quantity, which is the same for arguments that differ late.
+            token = dask.base.tokenize(
+                *(
+                    (float(q.value).hex(), q.unit.to_string())
+                    if isinstance(q, u.Quantity)
+                    else q
+                    for q in tf_args
+                )
+            )
             delayed_tf = dask.delayed(_transfer_function, pure=True)
             chirp = da.from_delayed(
-                delayed_tf(*tf_args), dtype=np.complex64, shape=(N,)
+                delayed_tf(*tf_args, dask_key_name="chirp-" + token),
+                dtype=np.complex64,
+                shape=(N,),
             )
         else:
             chirp = _transfer_function(*tf_args)
